@@ -578,7 +578,9 @@ def dtype_narrow(check):
     pid, proj = check.pid, check.proj
     n = bad = 0
     for f in proj.all_functions():
-        if not in_scope(pid, f) and not (f.name == "__init__" and f.cls is not None and any(in_scope(pid, g) for g in f.cls.methods.values() if g.name != "__init__")):
+        # (the index tables every 2D / boundary statement reads are built by the mesh classes: in scope for the integer clause)
+        mesh_tables = f.module.short in ("mesh", "mesh2d", "meshbase") and pid in ("C01", "C03", "C11", "C13", "C14", "C15", "C16", "C20")
+        if not mesh_tables and not in_scope(pid, f) and not (f.name == "__init__" and f.cls is not None and any(in_scope(pid, g) for g in f.cls.methods.values() if g.name != "__init__")):
             continue
         n += 1
         for c in ast.walk(f.node):
